@@ -75,11 +75,28 @@ Theorem C15_single_replace_frame : forall cap opts skip target i m toks,
 Proof. exact crawl_frame. Qed.
 Print Assumptions C15_single_replace_frame.
 
+(* Second sentence of the property (quoted identifiers, string literals, comments and whitespace are unchanged), as far as the
+   model can say it: IF the crawler and _eval never hand a token of a frozen kind to _handle_segment, then frozen tokens are
+   unchanged by any number of passes under every policy.  PARTIAL: the hypothesis is a statement about the crawl sets of CP01..CP05
+   against the segment types the 28 dialect grammars assign to raw tokens; it is not modelled, only monitored end to end by
+   harness/props/c15.py -- and the monitor shows it is false of the implementation in three places (quoted function names typed
+   function_name_identifier in bigquery/tsql; quoted option values parsed as KeywordSegment in snowflake/materialize; comments
+   inside a data type handed to _handle_segment by CP05). *)
+Theorem C15_frozen_tokens_unchanged_partial : forall (frozen : token -> bool) cap opts skip target loops toks,
+  (forall j t, frozen t = true -> target j t = false) ->
+  forall j t, nth_error toks j = Some t -> frozen t = true ->
+              nth_error (fix_loop cap opts skip target loops toks) j = Some t.
+Proof.
+  intros frozen cap opts skip target loops toks Hfz j t Hn Hf.
+  exact (proj2 (caps_fix_case_and_underscores cap opts skip target loops toks) j t Hn (Hfz j t Hf)).
+Qed.
+Print Assumptions C15_frozen_tokens_unchanged_partial.
+
 (* Hypotheses are satisfiable by non-trivial values. *)
 Example C15_ex_mem_ok : mem_ok mem0 /\ mem_ok (mkMem [PUpper; PCapitalise] (Some PLower)).
 Proof. split; [exact I | reflexivity]. Qed.
 
-(* select From WHERE "Quoted" (kinds: 0 keyword, 1 quoted identifier; only kind 0 targeted), consistent policy:
+(* select From WHERE Quoted-identifier (kinds: 0 keyword, 1 quoted identifier; only kind 0 targeted), consistent policy:
    first pass: select -> latest = lower; From, WHERE -> lower.  The quoted token is untouched. *)
 Example C15_ex_consistent :
   fix_loop Consistent [PUpper; PLower; PCapitalise] (fun _ => false) (fun _ t => Nat.eqb (t_kind t) 0) 2
